@@ -19,6 +19,12 @@ G' tag-token universes (round 8, spec/TagToken.tla + Gen_Parser "tagtok*"): the 
    "every string the tokenizer's tag patterns accept is accepted by tag_fn's start- or end-tag pattern" on
    every candidate and MachineOK on the token sequence; the real parse() must not raise, the tree must be
    well-formed (VIOLATION); tree and tokenizer decision are compared with the model's as DRIFT.
+G'' url-part universe (round 9, spec/ExtUrl.tla + Gen_ExtUrl): the URL PART of an external link [url] / [url label]
+   varies atom by atom (port, query / fragment directly after the host, IPv6 brackets, userinfo, percent escape,
+   trailing punctuation, nowiki / template call / argument reference / inner bracket) in running text, a list item,
+   a table cell and a template argument.  TLC predicts the merged first argument of the URL node (no two adjacent
+   strings: ExtUrlOK on every case); the real trees are judged by WellFormed - which since this round also demands
+   "no two adjacent strings" INSIDE argument fields (VIOLATION) - and the predicted first argument is compared as DRIFT.
 V  seeded random token soups over the full concrete token alphabet, grammar documents,
    nested line documents (3-8 lines, list depth moving line by line around elements that
    stay open across lines), byte/token mutations of the real pages tests/*.txt and a nesting ladder (1..100) are
@@ -850,7 +856,7 @@ EXT_SPELL = {"hHOST": ["http://x.org", "http://example.com"], "hPATH": ["https:/
              "hIP6": ["http://[::1]", "http://[2001:db8::1]"], "hREL": ["//x.org", "//example.com"],
              "hMAIL": ["mailto:a@b.c", "mailto:x@example.com"],
              "PORT": [":80", ":8080"], "SLASH": ["/", "/"], "QUERY": ["?q=1", "?title=Foo&a=b"], "FRAG": ["#f", "#top"],
-             "PCT": ["%20", "%5B%5D"], "AT": ["@u", "u:p@"], "DOT": [".", "."], "COMMA": [",", "!"], "AMP": ["&amp;", "&"],
+             "PCT": ["%20", "%5B%5D"], "AT": ["@u", "@example.org"], "DOT": [".", "."], "COMMA": [",", "!"], "AMP": ["&amp;", "&"],
              "UNI": ["\u00e9", "\u65e5"], "TPL": ["{{t}}", "{{nosuch|x}}"], "ARG": ["{{{1}}}", "{{{1|d}}}"],
              "NOWIKI": ["<nowiki/>", "<nowiki />"], "BRK": ["[1]", "[a]"]}
 EXT_CTX = {"cTOP": "see @ now", "cLI": "* i @ t", "cCELL": "{|\n| @ || c\n|}", "cTARG": "{{d|@}}"}
@@ -949,7 +955,8 @@ def run(tier: str) -> int:
     o.rule = ("M/G: every chunk sequence reachable in the universes of Gen_Parser (chunk universes: one chunk per step; line "
               "universes nest*: one line = list prefix + body per step) is one case (parsed in its primary and "
               "alternative spellings; line universes: primary spelling; tag-token universes tagtok*: one character of the "
-              "inside of a tag per step, 4 surroundings); V: every generated input (token soup over the full "
+              "inside of a tag per step, 4 surroundings; url-part universe Gen_ExtUrl: 4 surroundings x label / no label x "
+              "head x one atom of the url part per step); V: every generated input (token soup over the full "
               "concrete alphabet, grammar document, nested line document, container x empty-leaf document, page mutation, "
               "ladder document) x 3 parse modes is one evaluation; trees are de-duplicated by shape before TLC "
               "validates them with WellFormed; distinct_nontrivial counts distinct tree shapes with >= 2 node kinds.")
@@ -1017,8 +1024,10 @@ def selftest() -> int:
     bad2["ch"].append({"k": "LIST_ITEM", "sarg": pt.S("*"), "largs": [], "attrs": [], "ch": [], "hasdef": False, "def": []})
     bad3 = json.loads(json.dumps(good))
     bad3["ch"][0]["largs"][0].append({"s": pt.S("x" + chr(0x102041))})   # a cookie character
-    _, bad = validate_trees([("NONE", json.dumps(t)) for t in (good, bad1, bad2, bad3)])
+    bad4 = json.loads(json.dumps(good))
+    bad4["ch"][0]["largs"][0].append({"s": pt.S("x")})                   # a second string right after the title string
+    _, bad = validate_trees([("NONE", json.dumps(t)) for t in (good, bad1, bad2, bad3, bad4)])
     print("faults:", bad)
     ok = (0 not in bad and "empty-string-child" in bad.get(1, []) and "LIST_ITEM-not-under-LIST" in bad.get(2, [])
-          and "placeholder-char" in bad.get(3, []))
+          and "placeholder-char" in bad.get(3, []) and bad.get(4, []) == ["adjacent-strings-in-argument"])
     return 0 if ok else 1
